@@ -402,6 +402,10 @@ def C16(rep, prog, tier):
     preocf.rank_min(rep, ex)
     preocf.accept_decision(rep, ex)
     part.check_all(rep, ex, only=("inference.consistency_sat.consistency",))
+    preocf.factory_forwarding(rep, ex, which=("init_system_z",))
+    # the refusal carries the diagnostics: their flags are part of what the caller observes
+    diag.flags(rep, ex)
+    diag.facts_sat(rep, ex)
 
 
 def C17(rep, prog, tier):
@@ -422,6 +426,7 @@ def C17(rep, prog, tier):
     cinf.minima_encoding(rep, ex)
     cinf.summation(rep, ex)
     preocf.world_literals(rep, ex)
+    preocf.factory_forwarding(rep, ex, which=("init_random_min_c_rep",))
 
 
 def C18(rep, prog, tier):
@@ -434,6 +439,7 @@ def C18(rep, prog, tier):
     preocf.marg_bits(rep, ex)
     preocf.cond_filter(rep, ex)
     preocf.tpo_order(rep, ex)
+    preocf.factory_forwarding(rep, ex, which=("init_custom",))
 
 
 def C20(rep, prog, tier):
